@@ -348,3 +348,16 @@ def sany(module_path: str) -> tuple[bool, str]:
 def write_json(path: str, obj: Any) -> None:
     with open(path, "w") as fd:
         json.dump(obj, fd, separators=(",", ":"))
+
+
+def run_many(jobs: list[dict], parallel: int = 6) -> list[TLCResult]:
+    """Run several independent TLC jobs concurrently (each job = kwargs of run_tlc incl. module, cfg). Order preserved."""
+    from concurrent.futures import ThreadPoolExecutor
+
+    def one(job: dict) -> TLCResult:
+        job = dict(job)
+        module, cfg = job.pop("module"), job.pop("cfg")
+        return run_tlc(module, cfg, **job)
+
+    with ThreadPoolExecutor(max_workers=max(1, parallel)) as pool:
+        return list(pool.map(one, jobs))
